@@ -235,6 +235,26 @@ def pushBack (mx : Nat) (a : Arr) (L : Log) (r : Ref) : Res :=
     let (c, L) := construct a.cells L a.size v
     ⟨{ cells := c, size := a.size + 1 }, L, false⟩
 
+/-- `std::move(value)` consumed by a move constructor, for a `T&&` argument -/
+def moveRef (c : Block) (L : Log) : RRef → Elt × Block × Log
+  | .val v => (v, c, L)                 -- a temporary
+  | .cur i => moveOut c L i             -- an element of the current block: left moved-from
+  | .dangling => (deadVal, c, { L with viol := L.viol + 1 })
+
+/-- `push_back(T&& value)` as coded: `growAtEnd` first, then `moveConstruct(end(), std::move(value))` -/
+def pushBackMove (mx : Nat) (a : Arr) (L : Log) (r : Ref) : Res :=
+  if a.cap = a.size then
+    match growAtEnd mx a L 1 with
+    | none => ⟨a, L, true⟩
+    | some (a, L) =>
+      let (v, c, L) := moveRef a.cells L r.afterRealloc
+      let (c, L) := construct c L a.size v
+      ⟨{ cells := c, size := a.size + 1 }, L, false⟩
+  else
+    let (v, c, L) := moveRef a.cells L r.inPlace
+    let (c, L) := construct c L a.size v
+    ⟨{ cells := c, size := a.size + 1 }, L, false⟩
+
 /-- `push_back()` -/
 def pushBackDefault (mx : Nat) (a : Arr) (L : Log) : Res := pushBack mx a L (.ext defaultVal)
 
@@ -379,12 +399,12 @@ def constructFrom (L : Log) (vs : List Elt) : Res :=
 
 inductive Op
   | pushBack (r : Ref)
-  | pushBackMove (v : Elt)      -- push_back(T&&) of a temporary
-  | emplaceBack (v : Elt)
+  | pushBackMove (r : Ref)      -- push_back(T&&): a temporary (`ext`) or `std::move(a[i])`
+  | emplaceBack (r : Ref)       -- emplace_back(const T&)-style argument: a value or `a[i]`
   | pushBackDefault
   | popBack
   | insert (p : Nat) (r : Ref)
-  | emplace (p : Nat) (v : Elt)
+  | emplace (p : Nat) (r : Ref)
   | insertN (p n : Nat) (r : Ref)
   | insertRange (p : Nat) (vs : List Elt)
   | erase (first last : Nat)
@@ -406,12 +426,12 @@ deriving Repr, Inhabited
 
 def step (mx : Nat) (a : Arr) (L : Log) : Op → Res
   | .pushBack r => pushBack mx a L r
-  | .pushBackMove v => pushBack mx a L (.ext v)
-  | .emplaceBack v => pushBack mx a L (.ext v)
+  | .pushBackMove r => pushBackMove mx a L r
+  | .emplaceBack r => pushBack mx a L r          -- as coded: grow, then `new(end()) T(args…)`
   | .pushBackDefault => pushBackDefault mx a L
   | .popBack => popBack a L
   | .insert p r => insert mx a L p r
-  | .emplace p v => insert mx a L p (.ext v)
+  | .emplace p r => insert mx a L p r             -- as coded: insertGapAt, then `new(gap) T(args…)`
   | .insertN p n r => insertN mx a L p n r
   | .insertRange p vs => insertRange mx a L p vs
   | .erase f l => erase a L f l
@@ -433,9 +453,12 @@ def step (mx : Nat) (a : Arr) (L : Log) : Op → Res
 /-- preconditions of the API (violating them is UB in the release build, so the generator never does) -/
 def legal (mx : Nat) (a : Arr) : Op → Bool
   | .pushBack (.slot i) => i < a.size
+  | .pushBackMove (.slot i) => i < a.size
+  | .emplaceBack (.slot i) => i < a.size
   | .popBack => 0 < a.size
   | .insert p (.slot i) => p ≤ a.size ∧ i < a.size
   | .insert p _ => p ≤ a.size
+  | .emplace p (.slot i) => p ≤ a.size ∧ i < a.size
   | .emplace p _ => p ≤ a.size
   | .insertN p n (.slot i) => p ≤ a.size ∧ i < a.size ∧ a.size + n ≤ mx
   | .insertN p n _ => p ≤ a.size ∧ a.size + n ≤ mx
@@ -460,7 +483,10 @@ def legal (mx : Nat) (a : Arr) : Op → Bool
 external values always; an element `a[i]` only when the operation neither reallocates nor shifts it -/
 def refOK (a : Arr) : Op → Bool
   | .pushBack (.slot _) => a.cap ≠ a.size
+  | .pushBackMove (.slot _) => a.cap ≠ a.size
+  | .emplaceBack (.slot _) => a.cap ≠ a.size
   | .insert p (.slot i) => a.size + 1 ≤ a.cap ∧ i < p
+  | .emplace p (.slot i) => a.size + 1 ≤ a.cap ∧ i < p
   | .insertN p n (.slot i) => n = 0 ∨ (a.size + n ≤ a.cap ∧ i < p)
   | .resizeFill n (.slot _) => n ≤ a.cap
   | _ => true
@@ -468,6 +494,7 @@ def refOK (a : Arr) : Op → Bool
 /-- does the operation take its value from an element of the array itself? -/
 def aliases : Op → Bool
   | .pushBack (.slot _) | .insert _ (.slot _) | .insertN _ _ (.slot _) | .resizeFill _ (.slot _)
+  | .pushBackMove (.slot _) | .emplaceBack (.slot _) | .emplace _ (.slot _)
   | .fill (.slot _) | .viewFill _ _ _ _ (.slot _) => true
   | _ => false
 
@@ -482,11 +509,21 @@ def copySlot (a : Arr) : Op → Option Nat
   | .resizeFill n (.slot i) => if n > a.cap then some i else none
   | _ => none
 
+/-- the three operations that commit 06f34988 left without an `isElementOfThisArray` guard
+(`push_back(T&&)`, `emplace_back`, `emplace`): for them the current code still needs `refOK` -/
+def unguardedOK (a : Arr) : Op → Bool
+  | .pushBackMove r => refOK a (.pushBackMove r)
+  | .emplaceBack r => refOK a (.emplaceBack r)
+  | .emplace p r => refOK a (.emplace p r)
+  | _ => true
+
 def Op.withValue (v : Elt) : Op → Op
   | .pushBack _ => .pushBack (.ext v)
   | .insert p _ => .insert p (.ext v)
   | .insertN p n _ => .insertN p n (.ext v)
   | .resizeFill n _ => .resizeFill n (.ext v)
+  | .emplaceBack _ => .emplaceBack (.ext v)
+  | .emplace p _ => .emplace p (.ext v)
   | op => op
 
 def stepFixed (mx : Nat) (a : Arr) (L : Log) (op : Op) : Res :=
@@ -496,6 +533,29 @@ def stepFixed (mx : Nat) (a : Arr) (L : Log) (op : Op) : Res :=
     let r := step mx a { L with ctor := L.ctor + 1 } (op.withValue v)
     { r with log := { r.log with dtor := r.log.dtor + 1 } }          -- ~valueCopy
   | none => step mx a L op
+
+/-- the second proposed repair (`notes/C26_F3b_fix.diff`):
+* `push_back(T&&)` with an element argument that must reallocate: remember the element's index, grow, then
+  move from the element's *new* location;
+* `emplace_back` (when it reallocates) and `emplace`: build the new element in a temporary first. -/
+def stepFixed2 (mx : Nat) (a : Arr) (L : Log) : Op → Res
+  | .pushBackMove (.slot i) =>
+    if a.cap = a.size then
+      match growAtEnd mx a L 1 with
+      | none => ⟨a, L, true⟩
+      | some (a', L') => pushBackMove mx a' L' (.slot i)                 -- now in place: `std::move(data()[i])`
+    else step mx a L (.pushBackMove (.slot i))
+  | .emplaceBack (.slot i) =>
+    if a.cap = a.size then
+      let (v, L) := read a.cells L i                                     -- T tmp(args…);
+      let r := step mx a { L with ctor := L.ctor + 1 } (.emplaceBack (.ext v))
+      { r with log := { r.log with dtor := r.log.dtor + 1 } }            -- ~tmp
+    else step mx a L (.emplaceBack (.slot i))
+  | .emplace p (.slot i) =>
+    let (v, L) := read a.cells L i                                       -- T tmp(args…);
+    let r := step mx a { L with ctor := L.ctor + 1 } (.emplace p (.ext v))
+    { r with log := { r.log with dtor := r.log.dtor + 1 } }
+  | op => stepFixed mx a L op
 
 /-- operation sequences with the repaired algorithm (the code as it is after the `fix:` commit) -/
 def runFixed (mx : Nat) (a : Arr) (L : Log) : List Op → Arr × Log
@@ -513,12 +573,13 @@ def splice (vs : List Elt) (p q : Nat) (ws : List Elt) : List Elt := vs.take p +
 
 def spec (vs : List Elt) : Op → List Elt
   | .pushBack r => vs ++ [r.value vs]
-  | .pushBackMove v => vs ++ [v]
-  | .emplaceBack v => vs ++ [v]
+  | .pushBackMove (.ext v) => vs ++ [v]
+  | .pushBackMove (.slot i) => vs.set i movedVal ++ [vs.getD i deadVal]     -- the source element is left moved-from
+  | .emplaceBack r => vs ++ [r.value vs]
   | .pushBackDefault => vs ++ [defaultVal]
   | .popBack => vs.take (vs.length - 1)
   | .insert p r => splice vs p p [r.value vs]
-  | .emplace p v => splice vs p p [v]
+  | .emplace p r => splice vs p p [r.value vs]
   | .insertN p n r => splice vs p p (List.replicate n (r.value vs))
   | .insertRange p ws => splice vs p p ws
   | .erase f l => splice vs f l []
